@@ -434,6 +434,11 @@ func (d *dhcpRun) history() {
 			dst := bc
 			if o.K == "renew" || o.K == "release" {
 				dst = nic.HostIP
+				if o.K == "renew" && (step+int(d.idx))%3 == 0 {
+					// REBINDING: the same request, broadcast because the client got no answer to its unicast renewals
+					dst = bc
+					c.Obs("rebinding_requests", 1)
+				}
 			}
 			frameB = dhcpFrame(cl.mac, srcIP, dst, *req, 68, 67, bcastMAC)
 			if restarted && (o.K == "renew" || o.K == "reboot") {
